@@ -1201,7 +1201,7 @@ def s_apply_sub(draw, tier):
     a = {"op": True, "L": n, "phys": [x["phys"][s] for s in sites], "bonds": [draw(st.integers(1, 3)) for _ in range(n)], "cyclic": False,
          "dtype": draw(st.sampled_from(A.DTYPES64)), "seed": draw(A.seeds), "kind": draw(st.sampled_from(KINDS_WELL))}
     return {"A": a, "x": x, "sites": sites, "route": draw(st.sampled_from(["apply", "lazy", "gate_with_submpo", "gate_with_submpo"])),
-            "method": draw(st.sampled_from(["direct", "dm", "zipup", "fit", "src", "lazy"])), "transpose": draw(st.booleans()),
+            "method": draw(st.sampled_from(M_1D + ["lazy", "direct", "dm"])), "transpose": draw(st.booleans()),
             "where": draw(st.booleans()), "reverse": draw(st.booleans()), "contract": draw(st.booleans()),
             "orthog": draw(st.sampled_from(["calc", "none"]))}
 
@@ -1240,11 +1240,20 @@ def run_apply_sub(case):
         if m != "lazy":
             # exact rank of the result is at most (state bond) x (operator bond): nothing needs truncating
             kw.update(cutoff=0.0, max_bond=max(dx["bonds"]) * max(dA["bonds"]) * 3 + 2, sweep_reverse=case["reverse"])
-            if m in ("fit", "src"):
+            if m in M_RAND or m in ("fit", "fit-oversample"):
                 kw["seed"] = 7
+            if m not in M_DET:
                 tol = INV64
+            if m.endswith("-first") or m.endswith("-oversample"):
+                kw["max_bond_oversample"] = kw["max_bond"] + 2
         inf = {"cur_orthog": "calc"} if case["orthog"] == "calc" else {}
-        r = x.gate_with_submpo(Aop, where=list(ss) if case["where"] else None, method=m, transpose=tr, info=inf, **kw)
+        try:
+            r = x.gate_with_submpo(Aop, where=list(ss) if case["where"] else None, method=m, transpose=tr, info=inf, **kw)
+        except KeyError as exc:
+            # (a site tag of the *full* chain looked up on the sub-region: classified by the method family whose
+            #  inner first-stage compression is not told permute_arrays=False)
+            fam = "inner-stage-permutes" if m in ("zipup-first", "zipup-oversample", "fit-zipup", "fit-projector") else "other"
+            raise Violation("submpo-keyerror", family=fam, last_site_in_region=bool(ss[-1] == L - 1), **info) from exc
         if m != "lazy":
             # documented: info["cur_orthog"] is updated to the actual range: check the claim by isometry defects
             lo, hi = inf["cur_orthog"]
@@ -2135,8 +2144,8 @@ SUBCHECKS = [
              rule="x*a, a*x, a/x, *=, /=, multiply(spread_over), multiply_each, negate for 18 python/numpy real/complex scalars incl. zero == dense; nt: L>=3"),
     SubCheck("apply", run_apply, s_apply, examples=(250, 5000), shards=(2, 6),
              rule="MPO.apply/apply_/dot on MPS and MPO (contract, compress), tensor_network_apply_op_vec/op_op (all which_A/which_B), gate_*_with_op_lazy, sandwich, gate_with_mpo == dense products; nt: L>=3"),
-    SubCheck("apply_submpo", run_apply_sub, s_apply_sub, examples=(150, 3000), shards=(1, 4),
-             rule="sub-MPO on a subset of sites applied to an MPS (apply, lazy, gate_with_submpo x method x transpose x sweep_reverse) == kron-embedded operator; recorded orthogonality range true; nt: L>=3 and strict subset"),
+    SubCheck("apply_submpo", run_apply_sub, s_apply_sub, examples=(300, 5000), shards=(1, 4),
+             rule="sub-MPO on a subset of sites applied to an MPS (apply, lazy, gate_with_submpo x all 17 1D methods + lazy x transpose x sweep_reverse) == kron-embedded operator; recorded orthogonality range true; nt: L>=3 and strict subset"),
     SubCheck("scalars", run_scalars, s_scalars, examples=(250, 5000), shards=(1, 4),
              rule="a.H@b, overlap, norm, expec_TN_1D with 1-2 operators, trace, trace of product, normalize(bra, insert), bipartite Schmidt values == dense; nt: L>=3 and site-dependent dims or cyclic or >=2 layers"),
     SubCheck("partial_trace_to_mpo", run_ptrace, s_ptrace, examples=(150, 3000), shards=(1, 4),
